@@ -35,7 +35,7 @@ try:
         res['demo_output_with_change'] = (r1.stdout + r1.stderr)[-600:]
         res['checks'] = {}
         for c in checks:
-            e2 = dict(os.environ, VERIF_REPO=wt, PYTHONHASHSEED='0')
+            e2 = dict(os.environ, VERIF_REPO=wt, PYTHONHASHSEED='0', VERIF_EVIDENCE_DIR=wt + '-ev')
             r = subprocess.run(['/venv/bin/python', '-m', 'vf.run', c, '--tier', os.environ.get('MUT_TIER', 'quick')], cwd='/verif', env=e2,
                                capture_output=True, text=True)
             sig = [l for l in r.stdout.splitlines() if ': ' in l and 'VIOLATION' not in l and 'KNOWN-FINDING' not in l and not l.startswith(c + ' ')][:2]
@@ -64,5 +64,4 @@ try:
         json.dump(meta, open(os.path.join(d, 'meta.json'), 'w'), indent=1)
 finally:
     subprocess.run(['git', '-C', '/repo', 'worktree', 'remove', '--force', wt], capture_output=True)
-    subprocess.run(['git', 'checkout', '--', 'evidence'], cwd='/verif', capture_output=True)
-    shutil.rmtree('/verif/replays', ignore_errors=True)
+    shutil.rmtree(wt + '-ev', ignore_errors=True)
